@@ -190,6 +190,7 @@ def run(ctx: Ctx, rep: Report) -> None:
     rep.rule("C02-R2", "GETBULK responses are refused iff they hold more than N + M*R bindings (RFC 3416)", floor=1)
     rep.rule("C02-R3", "non-repeaters / max-repetitions sent agree with the OID lists, the response split and the caller's bulk size", floor=3)
     rep.rule("C02-R4", "the endOfMibView cut-off is a suffix cut", floor=1)
+    rep.rule("C02-R7", "a GETBULK response shortened by the agent (fewer bindings than a whole number of rows, RFC 3416 4.2.3) loses no root", floor=1)
     rep.rule("C02-R6", "the pythonic walk methods hand the caller's roots, bulk size and options to the raw walks one-to-one (shared with C15-R4)", floor=2)
     rep.rule("C02-R5", "the walk loop shared with the GETNEXT walk satisfies C01 R1-R8 (filter, delivery, regrouping, sortedness, continuation, markers, order)", floor=25)
     rep.assumptions += [
@@ -216,6 +217,64 @@ def run(ctx: Ctx, rep: Report) -> None:
     rep.adopt(sub, "C02-R5")
     rep.adopt_rules(ctx.sub_run("c03", rep), "C02-R5", ["C03-R2", "C03-R3"])
     rep.adopt_rules(ctx.sub_run("c15", rep), "C02-R6", ["C15-R4"], containing="walk")
+    check_short_rows(ctx, rep, wm)
+
+
+def check_short_rows(ctx: Ctx, rep: Report, wm: WalkModel) -> None:
+    """
+    RFC 3416 4.2.3 lets an agent shorten a GETBULK response "by removing variable bindings from the end", down to a
+    response that does not even hold one full row.  No endOfMibView was seen for the roots whose column came back
+    empty, so they are not finished: the walk must ask for them again (or refuse the response loudly).  Evaluated as
+    the composition fetcher -> regroup -> unfinished on responses of 1 binding for 2 roots and of 3 bindings for 2
+    roots at bulk size 2.
+    """
+    from ..engine.minieval import FuncRef, Instance, OidVal, Unevaluable
+    from .fetcheval import fetcher_eval
+    from .walkeval import run as eval_run
+
+    fe = fetcher_eval(ctx)
+    factory = wm.bulk_factory
+    oids = [OidVal((1, 3, 10)), OidVal((1, 3, 20))]
+    shapes = {
+        "1 binding for 2 requested roots (no full row)": [fe.binding((1, 3, 10, 1), fe.val("a"))],
+        "3 bindings for 2 requested roots (one full row and a half)": [fe.binding((1, 3, 10, 1), fe.val("a")), fe.binding((1, 3, 20, 1), fe.val("b")), fe.binding((1, 3, 10, 2), fe.val("c"))],
+    }
+    site = wm.walk.site()
+    for label, resp in shapes.items():
+        text = f"GETBULK response shortened by the agent - {label}, no endOfMibView: every root without an endOfMibView is asked for again (or the response is refused)"
+        requests: list = []
+        ev = fe.evaluator(resp, requests)
+        try:
+            kind, fetcher = fe.call(ev, factory, [fe.me(), 2])
+            if kind == "return" and isinstance(fetcher, Instance) and ctx.r.method(fetcher.cls, "__call__") is not None:
+                fetcher = FuncRef(ctx.r.method(fetcher.cls, "__call__"), bound_self=fetcher)
+            if kind != "return" or not isinstance(fetcher, FuncRef):
+                rep.undecided("C02-R7", site, text, f"bulk fetcher factory not evaluable: {kind} {fetcher!r}"[:160])
+                continue
+            kind, val = fe.call(ev, fetcher, [list(oids)])
+        except Unevaluable as exc:
+            rep.undecided("C02-R7", site, text, f"not evaluable: {exc}")
+            continue
+        if kind == "uneval":
+            rep.undecided("C02-R7", site, text, f"not evaluable: {val}")
+            continue
+        if kind == "raise":
+            rep.ok("C02-R7", site, text, f"refused: {val!r}"[:120])
+            continue
+        k1, grouped = eval_run(ctx, wm.group, [val, list(oids)], {})
+        k2, unfinished = eval_run(ctx, wm.unfinished, [grouped], {}) if k1 == "return" else (k1, grouped)
+        if "uneval" in (k1, k2):
+            rep.undecided("C02-R7", site, text, f"regrouping not evaluable: {grouped if k1 == 'uneval' else unfinished}")
+            continue
+        if k2 != "return":
+            rep.ok("C02-R7", site, text, f"refused: {unfinished!r}"[:120])
+            continue
+        try:
+            continued = [tuple(item)[0] if not isinstance(item, Instance) else item.attrs.get("__items__", [None])[0] for item in unfinished]
+        except TypeError:
+            continued = []
+        lost = [str(o) for o in oids if o not in continued]
+        rep.check(not lost, "C02-R7", site, text, f"fetcher hands out {len(val) if isinstance(val, list) else val!r} binding(s); roots continued: {[str(c) for c in continued]}; dropped without an endOfMibView: {lost}", key=f"{wm.walk.key}|short-row-drops-root|{len(resp)}-of-{len(oids)}")
 
 
 def check_bulk_fetch(ctx: Ctx, rep: Report, wm: WalkModel, r0: str = "C02-R0", r1: str = "C02-R1", r4: str = "C02-R4") -> None:
@@ -267,7 +326,7 @@ def check_bulk_fetch(ctx: Ctx, rep: Report, wm: WalkModel, r0: str = "C02-R0", r
     alts = alternatives(roots_arg) if roots_arg is not None else []
     roots_ok = bool(alts) and all(is_order_preserving_of(a, meth.params[1]) for a in alts) and all(is_order_preserving_of(v, meth.params[1]) for v in rebinds)
     fac_call = b[wm.fetch_param]
-    fac_arg_ok = len(fac_call.args) == 1 and norm(fac_call.args[0]) == "bulk_size" and "bulk_size" in meth.params
+    fac_arg_ok = len(fac_call.args) == 1 and norm(ctx.xexpand(meth, fac_call.args[0], depth=2)) == "bulk_size" and "bulk_size" in meth.params
     rep.check(roots_ok and fac_arg_ok, r0, meth.site(call), f"{meth.name}: walks the caller's roots with a fetcher built from the caller's bulk size", f"{norm(call)[:90]}", key=f"{meth.key}|delegation")
     loops = [n for n in own_nodes(meth.node) if isinstance(n, ast.AsyncFor)]
     ok = False
